@@ -451,3 +451,40 @@ Theorem C03_xer_extensions_section_own_name : forall N kids rest,
   ext_run N (fun _ => false) (flat (XNode N kids) ++ TClose N :: rest) Ph1 0%nat = XDone (length (flat (XNode N kids)) + 1)%nat.
 Proof. exact ext_section_own_name. Qed.
 Print Assumptions C03_xer_extensions_section_own_name.
+
+(* ---------------- the NUMBER of length octets (coq/Rt/LenOctets.v; tie: lib/c03_lenk.py) ---------------- *)
+From A1 Require Import Rt.SafetySkip Rt.LenOctets.
+
+(* X.690 8.1.3.5: 0x80+k, any count z of leading zero octets, the m octets of the true length, k = z + m <= 126 - also with k beyond
+   the 8 octets of the C's ber_tlv_len_t: the model of ber_fetch_length bounds the VALUE, never the COUNT *)
+Theorem C03_length_any_octet_count : forall (z m : nat) (len : Z) (rest : list Z) (c : bool),
+  (1 <= z + m <= 126)%nat -> 0 <= len < 256 ^ Z.of_nat m -> len <= rssize_max ->
+  fetch_length c ((128 + Z.of_nat (z + m)) :: padded_len z m len ++ rest) = FOk len (S (z + m)).
+Proof. exact fetch_length_padded. Qed.
+Print Assumptions C03_length_any_octet_count.
+
+Theorem C03_length_k_octets : forall (k m : nat) (len : Z) (rest : list Z) (c : bool),
+  (1 <= k <= 126)%nat -> (m <= k)%nat -> 0 <= len < 256 ^ Z.of_nat m -> len <= rssize_max ->
+  fetch_length c ((128 + Z.of_nat k) :: repeat 0 (k - m) ++ be_bytes m len ++ rest) = FOk len (S k).
+Proof. exact fetch_length_any_count. Qed.
+Print Assumptions C03_length_k_octets.
+
+(* 127: the reserved first octet 0xFF is refused *)
+Theorem C03_length_reserved_refused : forall (c : bool) (rest : list Z), fetch_length c (255 :: rest) = FErr.
+Proof. exact fetch_length_reserved. Qed.
+Print Assumptions C03_length_reserved_refused.
+
+(* the skipper of unknown extension additions (ber_skip_length) steps over a TLV body behind such a length, whatever follows *)
+Theorem C03_skip_length_any_octet_count : forall (z m : nat) (content rest : list Z) (c : bool),
+  (1 <= z + m <= 126)%nat -> zlen content < 256 ^ Z.of_nat m -> zlen content <= rssize_max ->
+  ber_skip_length c ((128 + Z.of_nat (z + m)) :: padded_len z m (zlen content) ++ content ++ rest)
+  = SOk (S (z + m) + length content).
+Proof. exact skip_length_padded. Qed.
+Print Assumptions C03_skip_length_any_octet_count.
+
+(* a fetcher that bounds the count of length octets by the width of the length type (seeded/C03-10) refuses a valid length *)
+Theorem C03_length_count_bounded_fetcher_refuted :
+  exists (z m : nat) (len : Z), (1 <= z + m <= 126)%nat /\ 0 <= len < 256 ^ Z.of_nat m /\ len <= rssize_max /\
+    fetch_length_counted 8 false ((128 + Z.of_nat (z + m)) :: padded_len z m len) <> FOk len (S (z + m)).
+Proof. exact counted_fetcher_refuted. Qed.
+Print Assumptions C03_length_count_bounded_fetcher_refuted.
